@@ -29,6 +29,9 @@ def run_cli(tool, argv, stdin=b'', cwd=None, hashseed='0', trace=False, prestate
         p = subprocess.run(cmdl, input=stdin, stdout=subprocess.PIPE, stderr=subprocess.PIPE, cwd=cwd or lib.REPO,
                            env=env, timeout=timeout)
         res.update(rc=p.returncode, out=p.stdout, err=p.stderr)
+        tail = p.stderr[-300:]
+        if b'MemoryError' in tail and b'Traceback' in p.stderr:
+            res.update(timeout=True, oom=True)      # the address-space cap of cli_child.py: a resource limit, filed with the timeouts
     except subprocess.TimeoutExpired as e:
         res.update(timeout=True, out=e.stdout or b'', err=e.stderr or b'')
     if trace:
